@@ -237,7 +237,7 @@ def check_main(prop, tier):
         s.setdefault('shard', i)
         s['seed'] = seed
         s['tier'] = tier
-    timeout = int(os.environ.get('VERIF_WATCHDOG', '1500' if tier == 'quick' else '14400'))
+    timeout = int(os.environ.get('VERIF_WATCHDOG', '900' if tier == 'quick' else '14400'))
     jobs = int(os.environ.get('VERIF_JOBS', str(os.cpu_count() or 4)))
     tmp = tempfile.mkdtemp(prefix='rv_%s_' % prop)
     inconclusive = []
